@@ -130,10 +130,16 @@ def run(ctx):
     ctx.rule = ('grammar-directed Michelson-shaped expressions: types (all type primitives, 0-3 annotations anywhere incl. argument '
                 'position), data (all constructors incl. Lambda_rec, Ticket, Elt, nested sequences, negative ints, strings over '
                 'printable ASCII with escapes), code (every instruction shape), scripts with views; sizes forcing the multi-line '
-                'layout; both inline and multi-line; distinct by normal form; non-trivial = >=3 nodes')
+                'layout; both inline and multi-line; distinct by normal form; non-trivial = >=3 nodes; plus the scripts, type sections, '
+                'recorded arguments and storages of the mainnet corpus in the repository tests')
     for _ in range(n):
         kind, e = GS.gen_expr(rng, rng.choice([1, 2, 3, 4]))
         judge(ctx, kind, e)
+    from rv.gen import corpus as C
+    for k, (kind, e) in enumerate(C.micheline_items()):
+        if ctx.mine(k) and (not ctx.quick or GS_size(e) < 3000):
+            ctx.count('corpus_expressions')
+            judge(ctx, 'corpus-' + kind, e)
     ctx.require('roundtrips', 200)
     ctx.require('multi_line_outputs', 10)
 
